@@ -504,3 +504,161 @@ class SymStack(_Generic):
         self.n = SV(self.n.t - 1)
         self.popped.append(t)
         return t
+
+
+# ---------------------------------------------------------------------------------------------------------------------
+# arrays as functions of the index, sets, and loops verified with an inductive invariant
+
+
+class FnArr(_Generic):
+    """array / set indexed by integers, represented by a function index-term -> z3 term (a Python closure).  Element stores
+    and masked stores compose closures; havoc replaces the closure by a fresh uninterpreted function."""
+
+    def __init__(self, f, n=None, sort="Real", name="arr"):
+        self.f, self.n, self.sort, self.name = f, n, sort, name
+
+    @staticmethod
+    def const(v, n=None, sort="Real", name="arr"):
+        t = {"Real": lambda: z3.RealVal(v), "Int": lambda: z3.IntVal(int(v)), "Bool": lambda: z3.BoolVal(bool(v))}[sort]()
+        return FnArr(lambda i: t, n, sort, name)
+
+    @staticmethod
+    def fresh_fn(name, sort):
+        F = z3.Function(name, z3.IntSort(), {"Real": z3.RealSort(), "Int": z3.IntSort(), "Bool": z3.BoolSort()}[sort])
+        return lambda i: F(i)
+
+    def _wrap(self, t):
+        return SB(t) if self.sort == "Bool" else SV(t)
+
+    def _val(self, v):
+        if self.sort == "Bool":
+            return sym.to_bool(v)
+        t = to_z3(v)
+        if self.sort == "Real":
+            return real(t)
+        if self.sort == "Int" and t.sort().kind() != z3.Z3_INT_SORT:
+            return z3.ToInt(t)
+        return t
+
+    def _guard(self, kt):
+        if self.n is not None:
+            ctx().oblige("safe.index-in-range", z3.And(kt >= 0, kt < to_z3(self.n)), kind="safe", detail=f"index into {self.name}")
+
+    def __getitem__(self, k):
+        if isinstance(k, (SV, int)):
+            kt = to_z3(k)
+            self._guard(kt)
+            return self._wrap(self.f(kt))
+        raise Unsupported(f"FnArr[{type(k).__name__}]")
+
+    def __setitem__(self, k, v):
+        old = self.f
+        if isinstance(k, FnArr):  # boolean mask
+            m, val = k.f, self._val(v)
+            self.f = lambda i, old=old, m=m, val=val: z3.If(m(i), val, old(i))
+            return
+        if hasattr(k, "space") and hasattr(k, "val"):  # per-row boolean vector (frames.GVec): index = row position
+            from .frames import RowPos
+            pv = RowPos(k.space).val.t
+            mt = sym.to_bool(k.val)
+            val = self._val(v)
+            self.f = lambda i, old=old, mt=mt, pv=pv, val=val: z3.If(z3.substitute(mt, (pv, i)), val, old(i))
+            return
+        kt = to_z3(k)
+        self._guard(kt)
+        val = self._val(v)
+        self.f = lambda i, old=old, kt=kt, val=val: z3.If(i == kt, val, old(i))
+
+    # set protocol
+    def add(self, k):
+        self.__setitem__(k, True)
+
+    def __sym_contains__(self, k):
+        return SB(self.f(to_z3(k)))
+
+    def __mul__(self, s):
+        f, st = self.f, real(to_z3(s))
+        return FnArr(lambda i: real(f(i)) * st, self.n, "Real", self.name)
+
+    __rmul__ = __mul__
+
+    def __sym_len__(self):
+        return self.n
+
+    @property
+    def shape(self):
+        return (self.n,)
+
+
+class InvSpec:
+    """contract-side description of a loop verified by induction: program variables that the loop changes (state), ghost
+    functions, the invariant as named clauses, and the ghost update"""
+    state = {}   # variable name -> sort
+    ghosts = {}  # ghost name -> sort
+
+    def ghost_init(self):
+        return {g: (lambda i, s=s: {"Int": z3.IntVal(0), "Real": z3.RealVal(0), "Bool": z3.BoolVal(False)}[s]) for g, s in self.ghosts.items()}
+
+    def inv(self, k, S, G):
+        return []
+
+    def ghost_step(self, k, S0, S1, G0):
+        return G0
+
+
+def run_invariant_loop(interp, st, env, n, bind_at, spec, label="loop"):
+    """`for x in seq:` with an inductive invariant: init obligations, one arbitrary iteration from a havocked state that satisfies
+    the invariant (preserve obligations), then the exit state = havocked state satisfying the invariant at k = n (hypothesis)."""
+    cx = ctx()
+    from ..interp import Break, Continue
+    objs = {}
+    for v in spec.state:
+        o = env.get(v) if env.has(v) else None
+        if not isinstance(o, FnArr):
+            raise Unsupported(f"invariant loop: state variable {v} is not an index-function array/set")
+        objs[v] = o
+    S_init = {v: o.f for v, o in objs.items()}
+    G_init = spec.ghost_init()
+    for nm, f in spec.inv(z3.IntVal(0), S_init, G_init):
+        cx.oblige(f"inv.init.{label}.{nm}", f, kind="inv")
+    u = next(cx.counter)
+    k = z3.Int(f"k!{u}")
+    S = {v: FnArr.fresh_fn(f"{v}@k!{u}", s) for v, s in spec.state.items()}
+    G = {g: FnArr.fresh_fn(f"{g}@k!{u}", s) for g, s in spec.ghosts.items()}
+    n_pc = len(cx.pc)
+    nt = to_z3(n)
+    cx.pc.append((z3.And(k >= 0, k < nt), st.lineno, "domain"))
+    for nm, f in spec.inv(k, S, G):
+        cx.pc.append((f, st.lineno, "domain"))
+    cx._solver = None
+    for v, o in objs.items():
+        o.f = S[v]
+    bind_at(env, k)
+    try:
+        interp.block(st.body, env)
+    except Continue:
+        pass
+    except Break:
+        raise Unsupported("break inside a loop verified by invariant")
+    for v in spec.state:
+        if env.get(v) is not objs[v]:
+            raise Unsupported(f"invariant loop: state variable {v} was rebound inside the loop")
+    S1 = {v: o.f for v, o in objs.items()}
+    G1 = spec.ghost_step(k, S, S1, G)
+    for nm, f in spec.inv(k + 1, S1, G1):
+        cx.oblige(f"inv.preserve.{label}.{nm}", f, kind="inv")
+    del cx.pc[n_pc:]
+    cx._solver = None
+    S2 = {v: FnArr.fresh_fn(f"{v}@exit!{u}", s) for v, s in spec.state.items()}
+    G2 = {g: FnArr.fresh_fn(f"{g}@exit!{u}", s) for g, s in spec.ghosts.items()}
+    for nm, f in spec.inv(nt, S2, G2):
+        cx.assume(f)
+    for v, o in objs.items():
+        o.f = S2[v]
+    cx.__dict__.setdefault("loop_exit", {})[label] = {"S": S2, "G": G2}
+    import ast
+    for node in ast.walk(ast.Module(body=st.body, type_ignores=[])):
+        if isinstance(node, (ast.Assign, ast.AugAssign)):
+            for t in (node.targets if isinstance(node, ast.Assign) else [node.target]):
+                if isinstance(t, ast.Name) and t.id not in spec.state and env.has(t.id):
+                    _set(env, t.id, Poison(f"loop-local {t.id} after an invariant loop"))
